@@ -76,6 +76,13 @@ CLAIMED["C18"] = {
     "design": "4/C18",
 }
 
+CLAIMED["C19"] = {
+    "text": "Lean theorems over the shared expression syntax and the gate: an expression records an unstable feature iff an unstable construct occurs at SOME syntactic position of it (every operand, argument index, condition side, branch, assert message, parentheses; any depth; by mutual structural induction); without a global opt-in the justfile is refused iff some module of the tree at any depth records a feature and does not itself `set unstable`; stable trees are never gated; the global opt-in admits everything; `set unstable` is per module; --summary is exempt; --fmt is gated; the documented falsy values are falsy, and the proved witness that the code's falsy set is larger than the README's (known finding). Correspondence: constructs x 12 positions (incl. imported file and submodule) x 17 opt-ins x 10 subcommands, plus stable decoy justfiles whose names and texts resemble the constructs, run against the binary (refused?, nothing ran before refusing).",
+    "note": "Trusted: Lean kernel; Expr/Unstable models (tied by the differential run); clap's env handling apart from the compared falsy set. `refused` is recognised by the `currently unstable` message.",
+    "technique": "Lean 4 proof (mutual structural induction, tree induction) + construct x position x opt-in differential",
+    "design": "4/C19",
+}
+
 PENDING = "check not built yet in this session (see DESIGN.md build order); no claim is made"
 
 
